@@ -489,7 +489,8 @@ func perturbLeaf(r *rand.Rand, env map[string]string, l *M) string {
 		axis = 0
 	}
 	_, versionVar := refParseVersion(env[l.Var])
-	if freeform := l.Var != "extra" && !versionVar && !strings.Contains(l.Lit, "*"); !freeform && (axis <= 4 || axis == 9) {
+	freeform := l.Var != "extra" && !versionVar && !strings.Contains(l.Lit, "*")
+	fromPool := func() string {
 		pool := litsAny
 		switch {
 		case l.Var == "extra":
@@ -502,6 +503,9 @@ func perturbLeaf(r *rand.Rand, env map[string]string, l *M) string {
 			l.Lit = pick(r, pool...)
 		}
 		return "lit-from-pool"
+	}
+	if !freeform && (axis <= 4 || axis == 9) {
+		return fromPool()
 	}
 	switch axis {
 	case 0, 1, 2: // white space inside the quoted literal
@@ -593,6 +597,9 @@ func perturbLeaf(r *rand.Rand, env map[string]string, l *M) string {
 		}
 		fallthrough
 	default: // one character of the literal
+		if !freeform {
+			return fromPool()
+		}
 		if len(l.Lit) > 0 {
 			p := r.Intn(len(l.Lit))
 			switch r.Intn(3) {
@@ -639,7 +646,9 @@ func familyVariants(r *rand.Rand, env map[string]string, want int) []uVariant {
 				return buildFlat([]*M{parenOf(parenOf(lf(0))), lf(1), parenOf(lf(2))}, cs), "paren-leaves"
 			},
 			func() (*M, string) { return buildFlat([]*M{lf(2), lf(1), lf(0)}, cs), "operands-reversed" },
-			func() (*M, string) { return buildFlat([]*M{lf(0), lf(1), lf(2)}, []string{cs[1], cs[0]}), "keywords-swapped" },
+			func() (*M, string) {
+				return buildFlat([]*M{lf(0), lf(1), lf(2)}, []string{cs[1], cs[0]}), "keywords-swapped"
+			},
 			func() (*M, string) {
 				m := buildFlat([]*M{lf(0), lf(1), lf(2)}, cs)
 				var ls []*M
